@@ -2,7 +2,7 @@
 _CODECS = ["contracts.at4_ctrl_status", "contracts.at5_ctrl_status", "contracts.at5_ext"]
 _SOCK = ["contracts.sock_queue", "contracts.sock_conn"]
 _HB = ["contracts.heartbeat"]
-_API = ["contracts.api_zone", "contracts.api_ac"]
+_API = ["contracts.api_zone", "contracts.api_ac", "contracts.api_airtouch"]
 MODULES = {
     "C01": _SOCK,
     "C02": _SOCK + _API + _HB,
@@ -11,12 +11,14 @@ MODULES = {
     "C05": _CODECS,
     "C06": ["contracts.c06_crc"] + _SOCK,
     "C07": _SOCK,
-    "C08": _HB + ["contracts.sock_conn"],
+    "C08": _HB + ["contracts.sock_conn", "contracts.api_airtouch"],
+    "C09": _API,
     "C10": _API,
     "C11": _API,
     "C12": _API + ["contracts.sock_conn"],
     "C13": _SOCK,
-    "C15": _SOCK,
+    "C14": _API + ["contracts.sock_conn"],
+    "C15": _SOCK + _HB + ["contracts.api_airtouch"],
     "C16": _SOCK,
     "C17": _CODECS + _SOCK,
     "C19": _API,
